@@ -373,11 +373,15 @@ def parse_vals(out):
     return vals
 
 
-def run_pairs(pairs, workers=8, checks=True, raw=False):
+def run_pairs(pairs, workers=4, checks=True, raw=False):
     """pairs: list of (orig_src, new_src) -> list of (verdict, orig_out, new_out);
     verdict in same / differ / skip"""
     def one(src):
-        return minif.gfortran_run(src, flags=("-fcheck=bounds",) if checks else ())
+        import subprocess
+        try:
+            return minif.gfortran_run(src, flags=("-ffree-line-length-none", "-w") + (("-fcheck=bounds",) if checks else ()))
+        except subprocess.TimeoutExpired as err:
+            raise common.Infra(f"gfortran timed out: {err}")
     flat_srcs = [s for p in pairs for s in p]
     with concurrent.futures.ThreadPoolExecutor(max_workers=workers) as pool:
         outs = list(pool.map(one, flat_srcs))
